@@ -15,6 +15,7 @@ Scenario (JSON):
    {'kind': 'sighting', 'svc': k, 'which': ['ptr','srv','txt','addr'], 'ttl_mode': 'full'|'zero'}   peer announces the host's records
    {'kind': 'raw', 'hex': ..., ...}                       arbitrary datagram (C15/C16)
    {'kind': 'unregister', 'svc': k} | {'kind': 'close'}  (C08/C17)
+   {'kind': 'register', 'svc': k}                         registers a service marked 'late' in the background (C08)
  'pre_updates': [{'svc': k, 'set': {field: value}}]        async_update_service calls made after registration, before settling (C08)
 """
 from __future__ import annotations
@@ -178,6 +179,9 @@ class RespRun:
 
         host.zc.async_add_listener(Spy(), None)
         for d in self.sc['services']:
+            if d.get('late'):
+                self.infos.append(None)        # registered by a 'register' event, its announcements not awaited
+                continue
             info = sim.make_service_info(d)
             task = await host.azc.async_register_service(info)
             await task
@@ -224,6 +228,9 @@ class RespRun:
             last_ms = w.now_ms
             await self._do_event(w, host, ev)
         await asyncio.sleep(self.sc.get('tail_ms', 2500) / 1000.0)
+        for t in getattr(self, 'late_tasks', []):
+            if t.done() and not t.cancelled() and t.exception() is not None:
+                raise HarnessError(f'background registration failed: {t.exception()!r}')
 
     def _src(self, ev: Dict[str, Any]) -> Tuple:
         fam = ev.get('family', 'v4')
@@ -299,6 +306,20 @@ class RespRun:
         elif kind == 'raw':
             ep = self._pick_endpoint(host, ev)
             self._deliver(w, ep, bytes.fromhex(ev['hex']), self._src(ev))
+        elif kind == 'register':
+            k = ev['svc'] % len(self.infos)
+            d = self.sc['services'][k]
+
+            async def late_register() -> None:
+                info = sim.make_service_info(d)
+                await host.azc.async_register_service(info)      # returns after probing; the announcements go on in a task
+                self.infos[k] = info
+                self.model.register(d)
+                w.gseq += 1
+                self.api_events.append({'kind': 'registered', 'g': w.gseq, 't_ms': w.now_ms, 'svc': k})
+
+            if self.infos[k] is None:
+                self.late_tasks = getattr(self, 'late_tasks', []) + [asyncio.ensure_future(late_register())]
         elif kind == 'unregister':
             k = ev['svc'] % len(self.infos)
             info = self.infos[k]
